@@ -42,7 +42,35 @@ def u3(run: Run, cy: CyProgram):
     run.floor("U3 work buffers", len(written), 2)
 
 
+def u5(run: Run, cy: CyProgram):
+    """The recurrence neighbourhood of the twin machinery is decided at the
+    precision of the data: the threshold a distance is compared with must not be
+    narrower than the distance (see precision.py)."""
+    from .precision import narrowing_report, float_widths
+    mod = cy.modules[TS]
+    W = float_widths(cy.types)
+    n = 0
+    for name in U2_KERNELS:
+        f = mod.funcs.get(name)
+        if f is None:
+            continue
+        rep, ncmp = narrowing_report(mod, f, W)
+        n += 1
+        run.oblige("U5", f"{name}:precision", not rep, sample={
+            "where": f.where, "floating_names_compared": ncmp})
+        for (nm, (w, kind, tname), wo, how, line) in rep:
+            run.add("U5", f"{name}/narrow/{kind}", f"{mod.relpath}:{line}",
+                    f"{name}: the {kind} `{nm}` is declared {tname} ({w * 8} bit) but is "
+                    f"{how} a {wo * 8}-bit floating value: states whose distance "
+                    f"differs from the threshold by less than float32 resolution are "
+                    f"put on the wrong side, so the recurrence neighbourhoods (and the "
+                    f"twins derived from them) are not those of the stated threshold")
+    run.floor("U5 kernels", n, 5)
+
+
 def check(run: Run, prog: Program, cy: CyProgram, sites):
+    run.rule("U5", "the twin machinery compares distances with a threshold of at least "
+             "the distances' precision")
     run.rule("U1", "the memoised spectrum / twins of a Surrogates object are never "
              "edited in place (repeated generation does not degrade)")
     run.rule("U2", "the twin-surrogate machinery is applicable: kernel boundary "
@@ -68,6 +96,7 @@ def check(run: Run, prog: Program, cy: CyProgram, sites):
                     f"allocates it with {detail['init']} ({verdict}): raises on every "
                     f"call")
     u3(run, cy)
+    u5(run, cy)
     from .rules_c01 import CacheModel, _k4_cond_recompute
     run.rule("U4", "a conditionally recomputed embedding/twin memo of Surrogates is "
              "refreshed by every writer of the data it derives from")
